@@ -263,6 +263,25 @@ func upceTrailingQuiet(c Case) bool {
 	return right <= 6*m
 }
 
+// allOrders lists the 24 orders of the four UPC/EAN formats (digits index EAN-13, EAN-8, UPC-A, UPC-E).
+func allOrders() []string {
+	var out []string
+	var rec func(cur string)
+	rec = func(cur string) {
+		if len(cur) == 4 {
+			out = append(out, cur)
+			return
+		}
+		for _, d := range "0123" {
+			if !strings.ContainsRune(cur, d) {
+				rec(cur + string(d))
+			}
+		}
+	}
+	rec("")
+	return out
+}
+
 func TestCheck(t *testing.T) {
 	hx.Main(t, "C03", func(c *hx.Ctx) {
 		c.Register("oned_roundtrip", check)
@@ -295,7 +314,7 @@ func TestCheck(t *testing.T) {
 				if s.UPCEAN {
 					cs.Multi = rapid.SampledFrom([]string{"", "hinted", "unhinted", "all"}).Draw(t, "multi")
 					if cs.Multi == "all" {
-						perm := rapid.SampledFrom([]string{"0123", "2013", "2301", "3210", "1230", "2103", "0213", "3021"}).Draw(t, "order")
+						perm := rapid.SampledFrom(allOrders()).Draw(t, "order")
 						cs.Multi = "all:" + perm
 					}
 					if cs.Multi != "" {
@@ -308,6 +327,51 @@ func TestCheck(t *testing.T) {
 					t.Fatalf("%v", err)
 				}
 			})
+		}
+		// UPC-A numbers built so that the EAN-8 reader, which searches its guards forward, finds a
+		// checksum-valid EAN-8 inside them (digits 1-4 and 7-10): every order and every subset of
+		// POSSIBLE_FORMATS that contains the true format must still give the UPC-A number
+		{
+			rng := hx.NewRng(c.Seed("confusable", 0))
+			orders := allOrders()
+			idx := 0
+			for k := 0; k < c.N(24, 400); k++ {
+				d := make([]byte, 11)
+				for i := range d {
+					d[i] = byte('0' + rng.Intn(10))
+				}
+				e8 := string(d[0:4]) + string(d[6:9])
+				d[9] = byte('0' + onedref.CheckDigit(e8))
+				upca := string(d)
+				upca += string(rune('0' + onedref.CheckDigit(upca)))
+				for _, sym := range []string{"UPCA", "EAN13"} {
+					content := upca
+					if sym == "EAN13" {
+						content = "0" + upca
+					}
+					for _, o := range orders {
+						idx++
+						if !c.Mine(idx) {
+							continue
+						}
+						cs := Case{Sym: sym, Content: content, Canonical: content, Margin: -1, Multi: "all:" + o}
+						if k%3 == 1 {
+							// a subset: EAN-8 and the true format only, in this order's relative order
+							sub := ""
+							for _, ch := range o {
+								if ch == '1' || (sym == "UPCA" && ch == '2') || (sym == "EAN13" && ch == '0') {
+									sub += string(ch)
+								}
+							}
+							cs.Multi = "all:" + sub
+						}
+						c.Note("multi_reader_confusable_orders", "sym="+sym+";first_format="+string(cs.Multi[4]), true, hx.HashS(content, cs.Multi), func() any { return cs })
+						if !c.Enum("multi_reader_confusable_orders", "oned_roundtrip", cs, nil) {
+							break
+						}
+					}
+				}
+			}
 		}
 		// histories on one writer and one reader instance per symbology
 		for si := range onedx.Syms {
